@@ -437,6 +437,7 @@ func init() {
 		ID: "C13", Title: "Record chunks are replayable: chunk-bounded reads return exactly that span", Level: "other",
 		Rules: []RuleDef{
 			{Name: "PATH-CHUNKLIMIT", What: "bam.Reader.Read tests vOffset(last end) >= vOffset(chunk end) before every record read when a chunk is set, and answers io.EOF", Floor: 1, Run: ruleChunkLimit},
+			{Name: "TX-END", What: "(*Tx).End reports {the Begin noted at the start, Reader.lastChunk.End} unmodified: the replay side compares the raw LastChunk().End with the chunk's End, so a recorded End in another spelling of the same position ((next,0) for (base,65280)) yields one record more (added after sixteenth-round seed C13-q)", Floor: 1, Run: ruleTxEnd},
 			{Name: "PATH-TX", What: "newBuffer: Begin() after the first read of the record; lastChunk = tx.End() deferred on every exit", Floor: 1, Run: ruleTx},
 			{Name: "COUPLED-ITER", What: "Iterator: SetChunk(&chunks[0]) and chunks = chunks[1:] strictly alternate; Close clears the limit", Floor: 3, Run: ruleIterCoupled},
 			{Name: "PAIR-BLOCKED", What: "ChunkReader saves/sets/restores the reader's Blocked mode around its life", Floor: 1, Run: rulePairBlocked},
